@@ -253,6 +253,35 @@ def run_validators_other(r):
         ("OneOf(VarInt)", lambda: C.OneOf(C.VarInt, {0, 127, 128, 1 << 70}), [(leb128(v), v) for v in [0, 1, 126, 127, 128, 129, 1 << 70, (1 << 70) + 1]],
          lambda v: v in {0, 127, 128, 1 << 70}),
     ]
+    # collections whose membership test is not element-wise equality: the predicate is Python's `in` on the very object given
+    class Mod3:
+        def __contains__(self, x):
+            return isinstance(x, int) and x % 3 == 0
+        def __iter__(self):
+            return iter([0])
+    grown = [1, 2]
+    bytes1 = [(bytes([b]), bytes([b])) for b in range(256)]
+    colls = [
+        ("OneOf(Bytes(1), b'RWX')", C.Bytes(1), b"RWX", bytes1, True), ("NoneOf(Bytes(1), b'\\x00\\xff')", C.Bytes(1), b"\x00\xff", bytes1, False),
+        ("OneOf(Bytes(2), b'abcd')", C.Bytes(2), b"abcd", [(x, x) for x in (b"ab", b"bc", b"cd", b"ac", b"ad", b"ba", b"aa", b"dc")], True),
+        ("OneOf(Bytes(1), bytearray)", C.Bytes(1), bytearray(b"RWX"), bytes1, True),
+        ("OneOf(CString, 'abc')", C.CString("ascii"), "abc", [(x.encode() + b"\0", x) for x in ("", "a", "ab", "bc", "ac", "abc", "abcd", "c", "cb")], True),
+        ("NoneOf(CString, 'abc')", C.CString("ascii"), "abc", [(x.encode() + b"\0", x) for x in ("", "a", "ab", "bc", "ac", "abc", "abcd", "c", "cb")], False),
+        ("OneOf(Byte, range(3,9))", C.Byte, range(3, 9), [(bytes([b]), b) for b in range(256)], True),
+        ("NoneOf(Byte, range(0,256,2))", C.Byte, range(0, 256, 2), [(bytes([b]), b) for b in range(256)], False),
+        ("OneOf(Byte, dict)", C.Byte, {1: "x", 5: "y"}, [(bytes([b]), b) for b in range(256)], True),
+        ("OneOf(Byte, Mod3())", C.Byte, Mod3(), [(bytes([b]), b) for b in range(256)], True),
+        ("NoneOf(Byte, Mod3())", C.Byte, Mod3(), [(bytes([b]), b) for b in range(256)], False),
+        ("OneOf(Byte, list grown later)", C.Byte, grown, [(bytes([b]), b) for b in range(256)], True),
+        ("OneOf(Byte, tuple)", C.Byte, (4, 5, 6), [(bytes([b]), b) for b in range(256)], True),
+        ("OneOf(Byte, frozenset)", C.Byte, frozenset((4, 5, 6)), [(bytes([b]), b) for b in range(256)], True),
+        ("OneOf(Byte, [True])", C.Byte, [True], [(bytes([b]), b) for b in range(4)], True),
+    ]
+    for name, sub, coll, domain, positive in colls:
+        d = (C.OneOf if positive else C.NoneOf)(sub, coll)
+        if coll is grown:
+            grown.append(7)
+        insts.append((name, (lambda d=d: d), domain, (lambda v, coll=coll, positive=positive: (v in coll) == positive)))
     for name, mk, domain, pred in insts:
         d = mk()
         for data, val in domain:
